@@ -29,7 +29,12 @@ pub(crate) fn synthesize_expr(
         return Ok(build_constant(constant, target_width));
     }
 
-    let raw = synth_raw(ctx, expr, current, target_width)?;
+    // An expression evaluates at the wider of its destination and its own
+    // context width (IEEE 1800-2017 11.6): with a narrower destination the
+    // bits above it still reach the result through a right shift, a division
+    // or a comparison further down, so truncate only at the end.
+    let eval_width = target_width.max(expr.comptime().expr_context.width);
+    let raw = synth_raw(ctx, expr, current, eval_width)?;
     Ok(resize(raw, target_width, expr_signed(expr)))
 }
 
